@@ -158,6 +158,12 @@ func c06Classes(sc advScenario, r *advResult) (bool, []string) {
 
 func c06Prop(t *testing.T, k *verifkit.Kit) func(sc advScenario) error {
 	return func(sc advScenario) error {
+		if sc.WaitNS == 0 {
+			sc.WaitNS = int64(30 * time.Second)
+			for _, l := range sc.Lat {
+				sc.WaitNS += 4 * l.NS // (the harness's patience with slow transmissions, not a verdict)
+			}
+		}
 		r := runAdvertiser(t, sc, nil)
 		if r.W == nil {
 			return fmt.Errorf("verif: world not created: %v", r.Panic)
@@ -271,6 +277,12 @@ func c06Gen(t *rapid.T) advScenario {
 		// whatever the advertiser then does - it re-initialises - the multicast RAs of each initialisation keep their distance
 		sc.Lat = []latRule{{Dst: rapid.SampledFrom([]string{"unicast", "unicast", "multicast", "any"}).Draw(t, "faildst"), N: rapid.IntRange(0, 4).Draw(t, "failnth"), Err: rapid.SampledFrom([]string{"syscall", "syscall:ENOBUFS", "syscall:EINTR"}).Draw(t, "failkind"),
 			From: rapid.IntRange(0, 3).Draw(t, "failall") == 0}}
+	}
+	if rapid.IntRange(0, 3).Draw(t, "slowwrites") == 0 {
+		// transmissions take time (nothing bounds a write to a raw socket): from a busy link to one stalled for
+		// longer than MIN_DELAY_BETWEEN_RAS
+		sc.Lat = append(sc.Lat, latRule{Dst: rapid.SampledFrom([]string{"any", "multicast", "unicast"}).Draw(t, "slowdst"), N: -1,
+			NS: rapid.SampledFrom([]int64{1, int64(time.Millisecond), 100 * int64(time.Millisecond), 3*s - 1, 3 * s, 3*s + 1, 10 * s}).Draw(t, "slowns")})
 	}
 	return sc
 }
